@@ -3,6 +3,7 @@ package server
 import (
 	"bytes"
 	"context"
+	"encoding/binary"
 	"errors"
 	"github.com/aldas/go-modbus-client/packet"
 )
@@ -48,11 +49,17 @@ func (m *ModbusTCPAssembler) handle(ctx context.Context, data []byte) []byte {
 
 	resp, err := m.Handler.Handle(ctx, p)
 	if err != nil {
+		errPacket := packet.ErrorResponseTCP{Code: packet.ErrUnknown}
 		var target *packet.ErrorParseTCP
 		if errors.As(err, &target) {
-			return target.Bytes()
+			errPacket.Code = target.Packet.Code
 		}
-		return packet.NewErrorParseTCP(packet.ErrUnknown, err.Error()).Bytes()
+		// error is response to this request and must be addressed to it. Errors created by handler (for example with
+		// packet.NewErrorParseTCP) do not know transaction id, unit id and function code of the request.
+		errPacket.TransactionID = binary.BigEndian.Uint16(data[0:2])
+		errPacket.UnitID = data[6]
+		errPacket.Function = data[7]
+		return errPacket.Bytes()
 	}
 
 	return resp.Bytes()
